@@ -9,7 +9,7 @@ from vmc import core, space
 PROPERTY = "C09"
 ENGINE = "E1 schema-space"
 RULE = ("every alias assignment over the three alias sources for a required and a defaulted field x (allow_deserialization_not_by_alias, "
-        "forbid_extra_keys) x class-level discriminator present or not x entry point x ALL subsets of the candidate key set: result or "
+        "forbid_extra_keys) x class-level discriminator present or not x fields declared in one class or split over a parent and a subclass x entry point x ALL subsets of the candidate key set: result or "
         "exception must equal KEYMODEL. Non-trivial: the input contains at least one key that is not the chosen key of a field "
         "(an alias/name/stranger decision is exercised).")
 ASSUMPTIONS = ["two fields (required x, defaulted y); candidate keys: names, every source's alias, a stranger, 'None', the discriminator key"]
@@ -19,7 +19,7 @@ CAND = ["x", "xM", "xA", "xC", "y", "yM", "yA", "yC", "zz", "None", "kind"]
 
 
 def bounds(tier):
-    return dict(tier=tier, alias_assignments=64, flags=4, field_types=["int (converted)", "Any (passed through)"], discriminator=[False, True], entry_points=["mixin", "codec", "via-base"],
+    return dict(tier=tier, alias_assignments=64, flags=4, field_types=["int (converted)", "Any (passed through)"], discriminator=[False, True], inheritance=["flat", "x in parent / y in subclass"], entry_points=["mixin", "codec", "via-base"],
                 candidate_keys=CAND, key_subsets=2 ** len(CAND))
 
 
@@ -30,11 +30,12 @@ def units(tier):
             for allow, forbid in itertools.product((False, True), repeat=2):
                 for discr in (False, True):
                     for anytyped in (False, True):      # int fields are converted, Any fields are passed through as they are
-                        out.append((xs, ys, allow, forbid, discr, anytyped))
+                        for inherit in (False, True):   # x declared by a parent class with the same Config, y added by the subclass
+                            out.append((xs, ys, allow, forbid, discr, anytyped, inherit))
     return out
 
 
-def build(xs, ys, allow, forbid, discr, mixin, ctx, anytyped=False):
+def build(xs, ys, allow, forbid, discr, mixin, ctx, anytyped=False, inherit=False):
     from mashumaro import DataClassDictMixin
     from mashumaro.config import BaseConfig
     from mashumaro.types import Alias, Discriminator
@@ -54,18 +55,35 @@ def build(xs, ys, allow, forbid, discr, mixin, ctx, anytyped=False):
     cfg = dict(aliases=aliases, allow_deserialization_not_by_alias=allow, forbid_extra_keys=forbid)
     bases = (DataClassDictMixin,) if mixin else ()
     base = None
+    parent = None
+
+    def mk_parent(pbases):
+        # the parent is a complete class of its own (compiled first, same flags, its own alias table)
+        pcfg = type("Config", (BaseConfig,), dict(cfg, aliases={k: v for k, v in aliases.items() if k == "x"}))
+        par = make_dataclass("Par", [("x", xt, xf)], bases=pbases, namespace={"Config": pcfg, "__module__": ctx.modname})
+        ctx.ns["Par"] = par
+        return par
     if discr:
         bcfg = type("Config", (BaseConfig,), dict(discriminator=Discriminator(field="kind", include_subtypes=True)))
         base = make_dataclass("Base", [], bases=bases, namespace={"Config": bcfg, "__module__": ctx.modname})
         ctx.ns["Base"] = base
         Cfg = type("Config", (BaseConfig,), cfg)
-        cls = make_dataclass("K", [("x", xt, xf), ("y", yt, yf), ("kind", ClassVar[str], field(default="s"))], bases=(base,),
+        kfields = [("x", xt, xf), ("y", yt, yf), ("kind", ClassVar[str], field(default="s"))]
+        kbase = base
+        if inherit:
+            kbase = mk_parent((base,))
+            kfields = kfields[1:]
+        cls = make_dataclass("K", kfields, bases=(kbase,),
                              namespace={"Config": Cfg, "__module__": ctx.modname})
         cls.kind = "s"
         ctx.ns["K"] = cls
     else:
         Cfg = type("Config", (BaseConfig,), cfg)
-        cls = make_dataclass("K", [("x", xt, xf), ("y", yt, yf)], bases=bases,
+        kfields = [("x", xt, xf), ("y", yt, yf)]
+        if inherit:
+            bases = (mk_parent(bases),)
+            kfields = kfields[1:]
+        cls = make_dataclass("K", kfields, bases=bases,
                              namespace={"Config": Cfg, "__module__": ctx.modname})
         ctx.ns["K"] = cls
     x_alias = "xM" if xm else ("xA" if xa else ("xC" if xc else None))
@@ -99,15 +117,16 @@ def keymodel(d, x_alias, y_alias, allow, forbid, discr):
 def run_unit(unit, only=None):
     from mashumaro.codecs.basic import BasicDecoder
     from mashumaro.exceptions import ExtraKeysError, MissingField
-    xs, ys, allow, forbid, discr, anytyped = unit
+    xs, ys, allow, forbid, discr, anytyped = unit[:6]
+    inherit = unit[6] if len(unit) > 6 else False
     res = core.UnitResult()
     eps = []
     ctx1, ctx2 = space.Ctx(), space.Ctx()
-    cls, base, xal, yal = build(xs, ys, allow, forbid, discr, True, ctx1, anytyped)
+    cls, base, xal, yal = build(xs, ys, allow, forbid, discr, True, ctx1, anytyped, inherit)
     eps.append(("mixin", cls, cls.from_dict))
     if discr:
         eps.append(("via-base", cls, base.from_dict))
-    clsp, _, _, _ = build(xs, ys, allow, forbid, discr, False, ctx2, anytyped)
+    clsp, _, _, _ = build(xs, ys, allow, forbid, discr, False, ctx2, anytyped, inherit)
     eps.append(("codec", clsp, BasicDecoder(clsp).decode))
     res.transitions += 3
     for mask in range(1 << len(CAND)):
@@ -155,4 +174,4 @@ def run_unit(unit, only=None):
 
 def replay(case):
     u = core.detuple(case["unit"])
-    return run_unit((tuple(u[0]), tuple(u[1]), u[2], u[3], u[4], u[5]), only=(case["entry"], case["mask"])).violations
+    return run_unit((tuple(u[0]), tuple(u[1])) + tuple(u[2:]), only=(case["entry"], case["mask"])).violations
